@@ -1,0 +1,78 @@
+//go:build verif
+
+package asp
+
+// Verification hook for property C19 (the BUILD parser is total and fails only with positioned
+// errors). Add-only; compiled only with -tags verif. Nothing here changes behaviour: it calls the
+// unexported lexer and the exported ParseData and reports what they produce.
+
+import (
+	"bytes"
+	"fmt"
+)
+
+// VerifC19Token is one token as the lexer emitted it.
+type VerifC19Token struct {
+	Type  int    `json:"t"`
+	Value string `json:"v"`
+	Pos   int    `json:"p"`
+}
+
+// VerifC19Outcome classifies how a lex or a parse ended.
+//
+//	Kind "ok":         no error
+//	Kind "positioned": the asp error type (*errorStack) with at least one frame; Offset is the 0-based
+//	                   byte position handed to fail()
+//	Kind "unpositioned": any other error value (e.g. a recovered Go runtime error); Msg is its text
+//	Kind "panic":      a panic escaped (only possible for the lexer entry, which has no recover of its own)
+type VerifC19Outcome struct {
+	Kind   string `json:"kind"`
+	Offset int    `json:"offset"`
+	Msg    string `json:"msg"`
+	N      int    `json:"n"` // number of top-level statements (parse) or tokens (lex)
+}
+
+func verifC19Classify(err error) VerifC19Outcome {
+	if err == nil {
+		return VerifC19Outcome{Kind: "ok"}
+	}
+	if st, ok := err.(*errorStack); ok && len(st.Stack) > 0 {
+		return VerifC19Outcome{Kind: "positioned", Offset: st.Stack[0].Offset - 1, Msg: st.ShortError()}
+	}
+	return VerifC19Outcome{Kind: "unpositioned", Offset: -1, Msg: err.Error()}
+}
+
+// VerifC19Parse runs the real Parser.ParseData (newParser: no interpreter is needed to parse).
+// The filename must not name an existing file (the error type would read it to compute line/column).
+func VerifC19Parse(data []byte) VerifC19Outcome {
+	stmts, err := newParser().ParseData(data, "verif-c19-no-such-dir/BUILD")
+	out := verifC19Classify(err)
+	out.N = len(stmts)
+	return out
+}
+
+// VerifC19Lex runs the real lexer alone over data and returns every token up to and including the EOF
+// token produced by the terminating NUL (EOF tokens produced by NUL bytes inside the data are passed
+// over, as the parser may do). It mirrors parseFileInput's recover.
+func VerifC19Lex(data []byte) (toks []VerifC19Token, out VerifC19Outcome) {
+	defer func() {
+		if r := recover(); r != nil {
+			if err, ok := r.(error); ok {
+				out = verifC19Classify(err)
+			} else {
+				out = VerifC19Outcome{Kind: "panic", Offset: -1, Msg: fmt.Sprint(r)}
+			}
+			out.N = len(toks)
+		}
+	}()
+	l := newLexer(&namedReader{r: bytes.NewReader(data), name: "verif-c19-no-such-dir/BUILD"})
+	for {
+		t := l.Peek()
+		toks = append(toks, VerifC19Token{Type: int(t.Type), Value: t.Value, Pos: int(t.Pos)})
+		if t.Type == EOF && l.pos >= len(l.bytes)-1 {
+			break
+		}
+		l.Next()
+	}
+	return toks, VerifC19Outcome{Kind: "ok", N: len(toks)}
+}
